@@ -643,7 +643,15 @@ func containmentCase(rt *rapid.T, sc *scenario) {
 	var cleanup []func() // run in order: clients, upstreams, listeners (resets, no TIME_WAIT sockets)
 	var csA, csB, csC *mesh.Case
 	var upB *mesh.RawServer
+	t0 := time.Now()
+	var tBody time.Time
 	defer func() {
+		tBody = time.Now()
+		defer func() {
+			if os.Getenv("VERIF_C08_DEBUG") != "" {
+				fmt.Printf("TIMING %s body=%v cleanup=%v\n", sc.Proto, tBody.Sub(t0), time.Since(tBody))
+			}
+		}()
 		for _, f := range cleanup {
 			f()
 		}
@@ -654,7 +662,9 @@ func containmentCase(rt *rapid.T, sc *scenario) {
 		}
 		for _, c := range []*mesh.Case{csA, csB, csC} {
 			if c != nil {
-				c.Close()
+				// in the background: removing a listener waits up to 15 s for its stream gauge to reach zero,
+				// which it does not always do after garbage (names and sockets are unique per case)
+				go c.Close()
 			}
 		}
 	}()
@@ -778,7 +788,13 @@ func containmentCase(rt *rapid.T, sc *scenario) {
 	}
 	outcomes.Range(func(_, v interface{}) bool { ev.Class(partContain, "garbage-connection:"+v.(string)); return true })
 	if probeErr != "" {
-		fail("probe-disturbed", "probe on %s: %s [upstream notes: %s | %s]", probeWhere, probeErr, upA.Notes(), upC.Notes())
+		sig := "probe-disturbed"
+		if strings.Contains(upA.Notes(), "cannot frame what the proxy forwarded") {
+			// a garbage frame was accepted by the listener's decoder and written verbatim onto the multiplexed
+			// upstream connection; the upstream dropped that connection and with it the probe's request
+			sig = "probe-disturbed:undecodable-garbage-forwarded-onto-shared-upstream-connection"
+		}
+		fail(sig, "probe on %s: %s [upstream notes: %s | %s]", probeWhere, probeErr, upA.Notes(), upC.Notes())
 	}
 	// the listeners still accept and serve fresh connections
 	for _, x := range []struct {
